@@ -103,6 +103,7 @@ int main(){
             for (auto& e : evs){ in >> e.it >> e.pos; e.f = rd(in); }
             verif_clock_ns = 1700000000000000000LL + seed * 1000003LL;
             std::vector<cell_ptr> cells = build_cells(t, true);
+            if (std::getenv("VERIF_INCOMING_IDS")) for (size_t i = 0; i < cells.size(); i++){ cells[i]->set_id((unsigned)(3 * (cells.size() - i) + 4)); cells[i]->set_local_id((unsigned)(3 * (cells.size() - i) + 4)); }
             out_dir = std::string("/verif/.cache/tmp/sv_") + tag + "_" + std::to_string(getpid());
             t.sp.output_folder_path_ = out_dir;
             vsolver s(t.sp, cells, threads, true, false);
